@@ -127,12 +127,13 @@ inductive YYEv where
   deriving Repr, DecidableEq
 
 /-- semantic side of the driver -/
-structure YYSem (α : Type) where
+structure YYSem (α σ : Type) where
   zero : α                                                   -- Go zero value of yySymType's value part
   tokVal : Nat → α                                           -- value a shifted token carries (token index)
-  reduce : Int → List α → α → Nat → Except String α          -- production, `$1…$n`, `yyVAL` default, tokens lexed so far
+  /-- state of the actions, production, `$1…$n`, `yyVAL` default, tokens lexed so far -/
+  reduce : σ → Int → List α → α → Nat → Except String (α × σ)
 
-structure YYSt (α : Type) where
+structure YYSt (α σ : Type) where
   stack : List (Int × α)        -- top first: (state, value); `yyS[0..yyp]`
   pos : Nat                     -- tokens lexed so far (`Lex` calls)
   la : Option Int               -- `yytoken` when `yyrcvr.char >= 0`
@@ -140,15 +141,16 @@ structure YYSt (α : Type) where
   nerrs : Nat
   yyval : α                     -- the variable `yyVAL`
   trace : List YYEv             -- reversed
+  aux : σ                       -- what the actions keep outside the value stack (root node, counters)
 
-inductive YYRes (α : Type) where
-  | cont (s : YYSt α)
-  | done (code : Nat) (s : YYSt α)
+inductive YYRes (α σ : Type) where
+  | cont (s : YYSt α σ)
+  | done (code : Nat) (s : YYSt α σ)
 
-variable {α : Type}
+variable {α σ : Type}
 
 /-- make sure a lookahead is present (`if yyrcvr.char < 0 { yyrcvr.char, yytoken = yylex1(...) }`) -/
-def ensureLA (t : YYTab) (input : Array Nat) (s : YYSt α) : Except YYFault (YYSt α × Int) :=
+def ensureLA (t : YYTab) (input : Array Nat) (s : YYSt α σ) : Except YYFault (YYSt α σ × Int) :=
   match s.la with
   | some tk => .ok (s, tk)
   | none => do
@@ -209,7 +211,7 @@ def popN : Nat → List (Int × α) → List α → Option (List α × List (Int
   | n + 1, (_, v) :: st, acc => popN n st (v :: acc)
 
 /-- one round of the driver: from `yynewstate` to the next `yystack` / `yynewstate` / return -/
-def yyStep (t : YYTab) (sem : YYSem α) (input : Array Nat) (s : YYSt α) : Except YYFault (YYRes α) := do
+def yyStep (t : YYTab) (sem : YYSem α σ) (input : Array Nat) (s : YYSt α σ) : Except YYFault (YYRes α σ) := do
   let (yystate, _) ← match s.stack with
     | [] => .error .underflow
     | e :: _ => pure e
@@ -272,16 +274,16 @@ def yyStep (t : YYTab) (sem : YYSem α) (input : Array Nat) (s : YYSt α) : Exce
           | [] => sem.zero
         let lhs ← t.R1 yyn
         let ns ← gotoState t lhs exposed
-        match sem.reduce yyn args dfl s.pos with
+        match sem.reduce s.aux yyn args dfl s.pos with
         | .error m => .error (.sem m)
-        | .ok v =>
-          pure (.cont { s with yyval := v, stack := (ns, v) :: rest, trace := .reduce yyn yystate :: s.trace })
+        | .ok (v, aux) =>
+          pure (.cont { s with yyval := v, stack := (ns, v) :: rest, trace := .reduce yyn yystate :: s.trace, aux := aux })
 
-def yyInit (sem : YYSem α) : YYSt α :=
-  { stack := [(0, sem.zero)], pos := 0, la := none, errflag := 0, nerrs := 0, yyval := sem.zero, trace := [] }
+def yyInit (sem : YYSem α σ) (aux : σ) : YYSt α σ :=
+  { stack := [(0, sem.zero)], pos := 0, la := none, errflag := 0, nerrs := 0, yyval := sem.zero, trace := [], aux := aux }
 
 /-- run for at most `fuel` rounds -/
-def yyRun (t : YYTab) (sem : YYSem α) (input : Array Nat) : Nat → YYSt α → Except YYFault (Option Nat × YYSt α)
+def yyRun (t : YYTab) (sem : YYSem α σ) (input : Array Nat) : Nat → YYSt α σ → Except YYFault (Option Nat × YYSt α σ)
   | 0, s => .ok (none, s)
   | f + 1, s =>
     match yyStep t sem input s with
@@ -331,6 +333,6 @@ def yyExpected (t : YYTab) (state : Int) : Except YYFault (Option (List Int)) :=
       | some (acc, a) => if a != 0 then pure none else pure (some acc)
     else pure (some acc)
 
-def unitSem : YYSem Unit := { zero := (), tokVal := fun _ => (), reduce := fun _ _ _ _ => .ok () }
+def unitSem : YYSem Unit Unit := { zero := (), tokVal := fun _ => (), reduce := fun _ _ _ _ _ => .ok ((), ()) }
 
 end PhpVerif
